@@ -63,6 +63,8 @@ MANDATORY = {
     ('mitxgraders.sampling.DependentSampler', 'formula'),
     ('mitxgraders.matrixsampling.ArraySamplingSet', 'shape'),
     ('mitxgraders.matrixsampling.TensorSamplingSet', 'shape'),
+    ('mitxgraders.matrixsampling.RealTensors', 'shape'),
+    ('mitxgraders.matrixsampling.ComplexTensors', 'shape'),
     ('mitxgraders.helpers.calc.specify_domain.SpecifyDomain', 'input_shapes'),
 }
 OPTIONAL_OK = {
@@ -80,6 +82,9 @@ DOCS_KNOWN_SLIPS = {
     ('docs/grading_math/sum_grader.md', 'SumGrader', 'samples'): 'listing says default 1, the text of the same page and the '
                                                                    'class docstring say 2 (code: 2)',
 }
+# docstring slips triaged by hand: SingleListGrader's docstring repeats ListGrader's "the default is []" for `answers`, while
+# the class inherits ItemGrader's default () (the option is compared at every class whose docstring documents it)
+DOCSTRING_KNOWN_SLIPS = {('SingleListGrader', 'answers')}
 # reviewed places where unknown keys are allowed: (module, enclosing function or module-level name)
 EXTRA_SITES = {
     ('mitxgraders.sampling', 'schema_user_functions_no_random'),
@@ -147,7 +152,7 @@ def _cls(q):
 # ----------------------------------------------------------------------------- D1
 def d1_markers(ctx, idx, fam):
     r = ctx.rule('D1.MARKERS', 'every option is declared Required(..., default=...) except the reviewed mandatory / optional keys',
-                 floor=199)
+                 floor=354)
     with r:
         n_dict = n_abs = 0
         for ci in fam.classes:
@@ -161,7 +166,7 @@ def d1_markers(ctx, idx, fam):
                 has_abstract = any('abstractmethod' in d or 'abstractproperty' in d for f in ci.methods.values() for d in f.decorators)
                 if q in ABSTRACT:
                     n_abs += 1
-                elif not own and has_abstract:
+                elif not own and (has_abstract or _is_helper_base(idx, fam, ci)):
                     # a new abstract base that only inherits the abstract schema_config: nothing to validate, it cannot be instantiated
                     n_abs += 1
                     r.note('%s: abstract base without an own schema_config (not instantiable), tolerated' % q)
@@ -175,7 +180,7 @@ def d1_markers(ctx, idx, fam):
                     r.undecided(q + '.schema_config', 'schema is not a dict schema any more: %s' % tab.other.text()[:80], ci.loc)
                 continue
             n_dict += 1
-            for path, o in fam.own_options(ci):
+            for path, o in tab.walk():
                 construct = '%s[%s]' % (_cls(q), path)
                 key = (q, path)
                 where = o.loc()
@@ -225,6 +230,26 @@ def d1_markers(ctx, idx, fam):
                     "expect key '%s' changed marker: %s" % (k, o.text()[:60]), o.loc())
 
 
+def _is_helper_base(idx, fam, ci):
+    """A class without its own schema_config (it inherits the abstract one) that only serves as a base: it has subclasses,
+    each of them has a concrete schema (or is such a base itself), and the package never instantiates it."""
+    subs = [idx.classes[q] for q in idx.subclasses(ci.qualname, strict=True) if q in idx.classes]
+    if not subs:
+        return False
+    for c in subs:
+        if c.qualname in fam.errors:
+            return False
+        if fam.tables.get(c.qualname) is None and ('schema_config' in c.attrs or 'schema_config' in c.methods):
+            return False
+    if all(fam.tables.get(c.qualname) is None for c in subs):
+        return False
+    for m in idx.package_modules():
+        for n in ast.walk(m.tree):
+            if isinstance(n, ast.Call) and isinstance(n.func, (ast.Name, ast.Attribute)) and nf.callee_name(n) == ci.name:
+                return False
+    return True
+
+
 def schema_answer_table(idx, fam):
     ci = idx.cls(IG)
     t = fam.ev.self_attr(ci, 'schema_answer', ci.node, tables.Scope(ci.module, self_cls=ci, owner=ci))
@@ -236,7 +261,7 @@ def schema_answer_table(idx, fam):
 
 # ----------------------------------------------------------------------------- D2
 def d2_docstrings(ctx, idx, fam):
-    r = ctx.rule('D2.DOCSTRING', 'each default literal equals the default stated in the class docstring', floor=102)
+    r = ctx.rule('D2.DOCSTRING', 'each default literal equals the default stated in the class docstring', floor=105)
     with r:
         skipped = {'not mentioned': 0, 'no default stated': 0, 'non-literal': 0}
         for ci in fam.classes:
@@ -245,9 +270,9 @@ def d2_docstrings(ctx, idx, fam):
             if tab is None or not tab.is_dict:
                 continue
             doc, stats = tables.parse_docstring_options(tables.class_docstring(ci))
-            own = list(fam.own_options(ci))
-            parents = {p for p, _ in own}
-            for path, o in own:
+            eff = list(tab.walk())
+            parents = set(tab.opts)
+            for path, o in eff:
                 leaf = path.split('.')[-1]
                 d = doc.get(leaf)
                 construct = '%s[%s] default' % (_cls(q), path)
@@ -261,6 +286,9 @@ def d2_docstrings(ctx, idx, fam):
                 if not nested and d.parent in parents and d.parent != leaf:
                     # a nested doc entry with the same name as a top-level option
                     skipped['not mentioned'] += 1
+                    continue
+                if (ci.name, path) in DOCSTRING_KNOWN_SLIPS:
+                    skipped['known docstring slip'] = skipped.get('known docstring slip', 0) + 1
                     continue
                 where = '%s (docstring of %s, line %d)' % (o.loc(), _cls(q), d.line)
                 if d.required and not d.has_default:
@@ -466,7 +494,7 @@ def _absent(r, idx, fi, construct, detail, loc='', **kw):
 # ----------------------------------------------------------------------------- D4
 def d4_init(ctx, idx, fam):
     r = ctx.rule('D4.INIT', 'constructor pipeline: kwargs iff config is None, registered defaults under the given configuration, '
-                            'coerce2unicode, validate_config, result stored; subclasses delegate first', floor=25)
+                            'coerce2unicode, validate_config, result stored; subclasses delegate first', floor=42)
     with r:
         fi = idx.func(OWS + '.__init__')
         params = fi.params
@@ -645,8 +673,8 @@ def d4_init(ctx, idx, fam):
         # subclass constructors delegate before they read self.config
         n_sub = 0
         for ci in fam.classes:
-            f = ci.methods.get('__init__')
-            if f is None or ci.qualname == OWS:
+            f = idx.lookup(ci, '__init__')
+            if f is None or f.qualname == OWS + '.__init__' or not f.qualname.startswith('mitxgraders.'):
                 continue
             n_sub += 1
             construct = '%s.__init__ [delegation]' % ci.name
@@ -732,8 +760,11 @@ def d4_init(ctx, idx, fam):
                 r.undecided('MatrixGrader.__init__ [unvalidated peek]', 'selection not recognised: %s' % short(sel[0]), lib.loc(mg, sel[0]))
         else:
             r.undecided('MatrixGrader.__init__ [unvalidated peek]', 'expected one conditional expression', mg.loc)
-        if n_sub < 17:
-            r.undecided('<constructors>', 'only %d subclass constructors found (17 reviewed)' % n_sub)
+        custom = [ci for ci in fam.classes if (idx.lookup(ci, '__init__') is not None
+                                               and idx.lookup(ci, '__init__').qualname != OWS + '.__init__')]
+        if len(custom) < N_CUSTOM_CONSTRUCTED:
+            r.undecided('<constructors>', 'only %d classes with a constructor of their own (own or inherited) found, %d reviewed'
+                        % (len(custom), N_CUSTOM_CONSTRUCTED))
 
 
 OWN_DEFAULT_REVIEWED = {
@@ -743,6 +774,7 @@ OWN_DEFAULT_REVIEWED = {
 
 
 META_CREATED_REVIEWED = {'default_values'}
+N_CUSTOM_CONSTRUCTED = 34     # classes of the family whose constructor (own or inherited) is not ObjectWithSchema.__init__
 
 
 def d4_class_defaults(ctx, idx, fam):
@@ -926,7 +958,13 @@ CROSS_RULES = [
     Cross('override warning', MHQ + 'warn_if_override',
           ["set(defaults).intersection(set(config[key])) and not config.get('suppress_warnings', False)",
            "set(config[key]).intersection(set(defaults)) and not config.get('suppress_warnings', False)",
-           "set(defaults) & set(config[key]) and not config.get('suppress_warnings', False)"],
+           "set(defaults) & set(config[key]) and not config.get('suppress_warnings', False)",
+           "{_E for _E in config[key] if _E in set(defaults)} and not config.get('suppress_warnings', False)",
+           "{_E for _E in config[key] if _E in defaults} and not config.get('suppress_warnings', False)",
+           "[_E for _E in config[key] if _E in set(defaults)] and not config.get('suppress_warnings', False)",
+           "[_E for _E in config[key] if _E in defaults] and not config.get('suppress_warnings', False)",
+           "{_E for _E in defaults if _E in config[key]} and not config.get('suppress_warnings', False)",
+           "[_E for _E in defaults if _E in config[key]] and not config.get('suppress_warnings', False)"],
           'overriding a default name needs suppress_warnings'),
     Cross('name collisions', MHQ + 'validate_no_collisions', ['_D[_K1].intersection(_D[_K2])', '_D[_K1] & _D[_K2]'],
           'variables and user constants may not share a name', inline=1),
@@ -987,8 +1025,10 @@ CROSS_RULES = [
     Cross('closing bracket allowed', IVQ + 'post_schema_ans_val', "_F not in self.config['closing_brackets']",
           'closing bracket must be one of closing_brackets'),
     Cross('input positions repeated', SGB + 'validate_input_positions', 'len(_L) > len(_S)', 'an input position may be used once', inline=0),
-    Cross('input positions consecutive', SGB + 'validate_input_positions', '_S != set(range(1, len(_S) + 1))',
-          'input positions are 1..n', inline=0),
+    Cross('input positions consecutive', SGB + 'validate_input_positions',
+          ['_S != set(range(1, len(_S) + 1))', '_S ^ set(range(1, len(_S) + 1))', '_S.symmetric_difference(set(range(1, len(_S) + 1)))',
+           '_S.symmetric_difference(range(1, len(_S) + 1))'],
+          'input positions are 1..n', inline=4),
     Cross('dependent sampler formula', 'mitxgraders.sampling.DependentSampler.__init__', None, 'the formula must parse',
           handler='CalcError'),
 ]
@@ -1318,6 +1358,39 @@ def _literal_loop_envs(node, fn_node):
     return envs, data_loops
 
 
+def _manager_exits(idx, fi):
+    """(__exit__ methods of package classes used as context managers in fi, texts of managers that could not be resolved)."""
+    exits, unknown = [], []
+    for w in lib.stmts_in(fi.node, ast.With):
+        for it in w.items:
+            e = it.context_expr
+            f = e.func if isinstance(e, ast.Call) else e
+            name = f.id if isinstance(f, ast.Name) else (f.attr if isinstance(f, ast.Attribute) else None)
+            kind, obj = idx.resolve_name(fi.module, name) if isinstance(f, ast.Name) else (None, None)
+            if isinstance(f, ast.Attribute):
+                d = idx.dotted_of(fi.module, f)
+                if d is not None:
+                    kind, obj = idx.resolve_dotted(d)
+                    if kind == 'external':
+                        # Class.Nested inside the same module / class
+                        for q, c_ in idx.classes.items():
+                            if q.endswith('.' + '.'.join(unparse(f).split('.')[-2:])) or (q.endswith('.' + f.attr) and q.startswith(fi.module.name)):
+                                kind, obj = 'class', c_
+                                break
+            if kind == 'class' and obj.qualname.startswith('mitxgraders.'):
+                ex = idx.lookup(obj, '__exit__')
+                if ex is not None:
+                    exits.append(ex)
+                    continue
+            if kind == 'func' and obj.qualname.startswith('mitxgraders.'):
+                unknown.append(unparse(e)[:40])       # generator-based manager: not analysed
+                continue
+            if kind in ('external', 'builtin') and isinstance(f, ast.Name):
+                continue
+            unknown.append(unparse(e)[:40])
+    return exits, unknown
+
+
 def _sites_of(idx, fi):
     """Raise sites of a function: (owner, raise node, [(guards, loops)], handler class names, key).  A raise inside a loop
     over a literal tuple stands for one site per element (the loop variable replaced by the element)."""
@@ -1354,6 +1427,19 @@ def d5_cross(ctx, idx, fam):
             sites = _sites_of(idx, fi)
             for h in helpers:
                 sites.extend(_sites_of(idx, h))
+            managers, unknown_managers = _manager_exits(idx, fi)
+            for ex in managers:
+                # a raise in the __exit__ of a context manager used in fi: it translates the exception classes it tests for
+                for rs in lib.raises_of(ex.node):
+                    if rs.exc is None:
+                        continue
+                    tested = set()
+                    for g in guards_of(rs, ex.node):
+                        for cnode in ast.walk(g):
+                            if isinstance(cnode, ast.Call) and nf.callee_name(cnode) in ('issubclass', 'isinstance') and len(cnode.args) == 2:
+                                cl = cnode.args[1]
+                                tested |= {unparse(e).split('.')[-1] for e in (cl.elts if isinstance(cl, ast.Tuple) else [cl])}
+                    sites.append((ex, rs, [([], [])], ['with:' + t for t in tested], (id(rs), 0)))
             used = set()
             missing = []
 
@@ -1363,7 +1449,7 @@ def d5_cross(ctx, idx, fam):
                     if key in used:
                         continue
                     if c.handler is not None:
-                        if c.handler in hnames:
+                        if c.handler in hnames or c.handler in [h_ for h_ in hnames if h_] or ('with:' + c.handler) in hnames:
                             exact.append((owner, rs, None, key))
                         continue
                     for gs, loops in alts:
@@ -1463,7 +1549,7 @@ def d5_cross(ctx, idx, fam):
                         leftover.append((o, rs))
                     else:
                         dead.append((o, rs))
-                unrev = [h.qualname for h in helpers if h.qualname in idx.unreviewed]
+                unrev = [h.qualname for h in helpers if h.qualname in idx.unreviewed] + ['context manager ' + u for u in unknown_managers]
                 opaque_calls = [h.qualname for h in helpers]
                 for c, construct in missing:
                     if leftover or unrev:
@@ -1710,7 +1796,7 @@ def name_term(n):
 
 
 def d6_helpers(ctx, idx, fam):
-    r = ctx.rule('D6.HELPERS', 'validator helpers accept exactly their documented domains', floor=21)
+    r = ctx.rule('D6.HELPERS', 'validator helpers accept exactly their documented domains', floor=22)
     with r:
         ev = fam.ev
         vmod = idx.module('mitxgraders.helpers.validatorfuncs')
@@ -1758,15 +1844,68 @@ def d6_helpers(ctx, idx, fam):
                     'the [start, stop] list form of a number range is no longer accepted (alternatives: %s)' % [a.text()[:40] for a in tab.alternatives],
                     fi.loc)
         alt = idx.func(VFQ + 'number_range_alternate.<locals>.validatorfunc')
-        lens = [c for c in walk_own(alt.node) if isinstance(c, ast.Call) and nf.callee_name(c) == 'Length']
-        if len(lens) != 1:
-            r.violation('number_range_alternate [length]', 'the list form of a range is no longer restricted to exactly two entries',
-                        alt.loc, expected='Length(min=2, max=2)')
+        outer = idx.func(VFQ + 'number_range_alternate')
+        lparam = alt.params[0]
+        nt_name = outer.params[0] if outer.params else None
+        NT = ('name', '<number_type>')
+        # the schema applied to the list: F(config_as_list), F bound in validatorfunc, in the enclosing function (closure),
+        # at module level, or returned by a helper -- evaluated with number_type symbolic
+        appl = [c for c in walk_own(alt.node) if isinstance(c, ast.Call) and len(c.args) == 1 and isinstance(c.args[0], ast.Name)
+                and c.args[0].id == lparam and not c.keywords]
+        sym_env = {nt_name: tables.Term('name', name='<number_type>')} if nt_name else {}
+        term = None
+        where = alt.loc
+        for c in appl:
+            f_ = c.func
+            try:
+                if isinstance(f_, ast.Name):
+                    defs_in = lib.assigned_value(alt.node, f_.id)
+                    defs_out = lib.assigned_value(outer.node, f_.id)
+                    if len(defs_in) == 1:
+                        term, where = ev.eval(defs_in[0], tables.Scope(vmod, env=dict(sym_env))), lib.loc(alt, defs_in[0])
+                    elif not defs_in and len(defs_out) == 1:
+                        term, where = ev.eval(defs_out[0], tables.Scope(vmod, env=dict(sym_env))), lib.loc(outer, defs_out[0])
+                    elif not defs_in and not defs_out:
+                        mv = ev.module_value(vmod, f_.id)
+                        if mv is not None:
+                            term, where = mv, mv.loc()
+                else:
+                    term, where = ev.eval(f_, tables.Scope(vmod, env=dict(sym_env))), lib.loc(alt, c)
+            except tables.Unsupported:
+                term = None
+            if term is not None:
+                break
+        form = nv(term) if term is not None else None
+        if form is not None and form and form[0] == 'Schema':
+            form = form[1]
+        parts = list(form[1:]) if isinstance(form, tuple) and form and form[0] == 'All' else None
+        lists = [x for x in (parts or []) if isinstance(x, tuple) and x and x[0] == 'list']
+        lens = [x for x in (parts or []) if isinstance(x, tuple) and x and x[0] == 'Length']
+        others = [x for x in (parts or []) if x not in lists and x not in lens]
+        if parts is None or has_opaque(form) or others or len(lists) != 1:
+            r.undecided('number_range_alternate [length]', 'schema of the [start, stop] list form not located / not recognised: %s'
+                        % (term.text()[:80] if term is not None else 'no schema applied to %s found' % lparam), where)
+            r.undecided('number_range_alternate [entry type]', 'schema of the list form not recognised', where)
         else:
-            lt = nv(ev.eval(lens[0], tables.Scope(vmod)))
-            r.check(lt == ('Length', 2, 2), 'number_range_alternate [length]', 'exactly two entries',
-                    'a [start, stop] list may now have %s' % show_nv(lt), lib.loc(alt, lens[0]), expected='Length(min=2, max=2)',
-                    found=show_nv(lt))
+            if not lens:
+                r.violation('number_range_alternate [length]', 'the schema of the [start, stop] list form is `%s`, without a Length: a '
+                            'list of any length is accepted and only its first two entries are used' % show_nv(form), where,
+                            expected='Length(min=2, max=2)', found=show_nv(form))
+            elif lens[0] == ('Length', 2, 2):
+                r.ok('number_range_alternate [length]', 'exactly two entries', where)
+            else:
+                r.violation('number_range_alternate [length]', 'a [start, stop] list may now have %s entries' % show_nv(lens[0]), where,
+                            expected='Length(min=2, max=2)', found=show_nv(lens[0]))
+            entries = lists[0][1:]
+            if entries and all(e == NT for e in entries):
+                r.ok('number_range_alternate [entry type]', 'every entry is validated as number_type', where)
+            elif entries and all(isinstance(e, tuple) and e and e[0] == 'name' for e in entries):
+                r.violation('number_range_alternate [entry type]', 'the entries of the [start, stop] list form are validated as %s whatever '
+                            'number_type is: IntegerRange([1.5, 3]) (NumberRange(int)) accepts non-integers in the list form although the '
+                            'dictionary form refuses them' % sorted({e[1] for e in entries}), where,
+                            expected='[number_type, number_type]', found=show_nv(lists[0]))
+            else:
+                r.undecided('number_range_alternate [entry type]', 'entry validators not recognised: %s' % show_nv(lists[0]), where)
         rets = lib.returns_of(alt.node)
         okr = len(rets) == 1 and nf.classify("{'start': _L[0], 'stop': _L[1]}", rets[0].value) == nf.MATCH
         resr = nf.classify("{'start': _L[0], 'stop': _L[1]}", rets[0].value) if len(rets) == 1 else nf.UNRECOGNISED
@@ -1790,13 +1929,22 @@ def d6_helpers(ctx, idx, fam):
                             wraps = True
             r.check(wraps, '%s [singleton]' % helper, 'a single value is wrapped into a %s' % container,
                     '%s no longer wraps a single value into a %s: the documented single-value form is refused' % (helper, container), f.loc)
-            schemas = [c for c in walk_own(f.node) if isinstance(c, ast.Call) and nf.callee_name(c) == 'Schema']
-            all_lens = [c for c in walk_own(f.node) if isinstance(c, ast.Call) and nf.callee_name(c) == 'Length']
+            # the schema may be built at validation time (inner function), once in the enclosing function, or by a private helper
+            outer_f = idx.func(VFQ + helper)
+            scopes = [f, outer_f]
+            for base_f in (f, outer_f):
+                for h_ in _followed_callees(idx, base_f, set()):
+                    if h_ not in scopes:
+                        scopes.append(h_)
+            schemas, all_lens = [], []
+            for sf in scopes:
+                schemas += [(sf, c) for c in walk_own(sf.node) if isinstance(c, ast.Call) and nf.callee_name(c) == 'Schema']
+                all_lens += [c for c in walk_own(sf.node) if isinstance(c, ast.Call) and nf.callee_name(c) == 'Length']
             wrong = [c for c in all_lens if nv(ev.eval(c, tables.Scope(vmod))) != ('Length', 1, INF)]
             from ..index import local_names as _ln
-            local_names = set(_ln(f.node)) - set(f.all_params)
             definite, unknown = [], []
-            for sc in schemas:
+            for sf, sc in schemas:
+                local_names = set(_ln(sf.node)) - set(sf.all_params)
                 inside = [c for c in ast.walk(sc) if isinstance(c, ast.Call) and nf.callee_name(c) == 'Length']
                 if inside:
                     continue
@@ -1804,7 +1952,7 @@ def d6_helpers(ctx, idx, fam):
                 refs = {n.id for n in ast.walk(sc) if isinstance(n, ast.Name) and n.id in local_names}
                 via_local = False
                 for name in refs:
-                    for val in lib.assigned_value(f.node, name):
+                    for val in lib.assigned_value(sf.node, name):
                         if any(isinstance(c, ast.Call) and nf.callee_name(c) == 'Length' for c in ast.walk(val)):
                             via_local = True
                 if via_local:
@@ -2706,6 +2854,9 @@ MUTANTS = [
     Mutant('positive-int-allows-zero', VF, "        return All(thetype, Range(1, float('inf')))", "        return All(thetype, Range(0, float('inf')))", 'D6'),
     Mutant('nonnegative-starts-at-one', VF, "    return All(thetype, Range(0, float('inf')))\n", "    return All(thetype, Range(1, float('inf')))\n", 'D6'),
     Mutant('positive-number-allows-zero', VF, ", NotIn([0]))", ")", 'D6'),
+    Mutant('seeded-C12g-range-list-ignores-number-type', VF, "            [number_type, number_type],", "            [Number, Number],", 'D6'),
+    Mutant('number-range-length-dropped', VF, "        alternate_form = Schema(All(\n            [number_type, number_type],\n            Length(min=2, max=2)\n        ))",
+           "        alternate_form = Schema(All(\n            [number_type, number_type]\n        ))", 'D6'),
     Mutant('number-range-length', VF, "Length(min=2, max=2)", "Length(min=2)", 'D6'),
     Mutant('list-of-type-allows-empty', VF, "            schema = Schema(All([given_type], Length(min=1)))", "            schema = Schema(All([given_type]))", 'D6'),
     Mutant('percentage-sign', VF, "                if not percent >= 0:", "                if not percent > 0:", 'D6'),
@@ -2796,6 +2947,25 @@ BENIGN = [
     Benign('linear-comparer-schema-generated', LIN,
            "    schema_config = Schema({\n        Required('equals', default=1.0): Any(None, Range(0, 1)),\n        Required('proportional', default=0.5): Any(None, Range(0, 1)),\n        Required('offset', default=None): Any(None, Range(0, 1)),\n        Required('linear', default=None): Any(None, Range(0, 1)),",
            "    schema_config = Schema(dict([(Required(m_, default=c_), Any(None, Range(0, 1))) for m_, c_ in zip(('equals', 'proportional', 'offset', 'linear'), (1.0, 0.5, None, None))])).extend({"),
+    Benign('range-list-schema-in-closure', VF,
+           "    def validatorfunc(config_as_list):\n        alternate_form = Schema(All(\n            [number_type, number_type],\n            Length(min=2, max=2)\n        ))\n        config_as_list = alternate_form(config_as_list)\n        return {'start': config_as_list[0], 'stop': config_as_list[1]}",
+           "    alternate_form = Schema(All(\n        [number_type, number_type],\n        Length(min=2, max=2)\n    ))\n\n    def validatorfunc(config_as_list):\n        checked = alternate_form(config_as_list)\n        return {'start': checked[0], 'stop': checked[1]}"),
+    Benign('range-list-schema-from-helper', VF,
+           "def number_range_alternate(number_type=Number):\n    \"\"\"\n    Validator function that coerces a list [start, stop] into a dictionary\n    Uses specific type number_type\n    \"\"\"\n    def validatorfunc(config_as_list):\n        alternate_form = Schema(All(\n            [number_type, number_type],\n            Length(min=2, max=2)\n        ))\n        config_as_list = alternate_form(config_as_list)",
+           "def _range_as_list(number_type):\n    return Schema(All([number_type, number_type], Length(min=2, max=2)))\n\ndef number_range_alternate(number_type=Number):\n    \"\"\"\n    Validator function that coerces a list [start, stop] into a dictionary\n    Uses specific type number_type\n    \"\"\"\n    alternate_form = _range_as_list(number_type)\n\n    def validatorfunc(config_as_list):\n        config_as_list = alternate_form(config_as_list)"),
+    Benign('dependent-sampler-context-manager', SAM,
+           "        try:\n            parsed = parse(self.config['formula'])\n            self.config['depends'] = list(parsed.variables_used)\n        except CalcError:\n            raise ConfigError(\"Formula error in dependent sampling formula: \" +\n                              self.config[\"formula\"])\n\n    def gen_sample(self):",
+           "        with DependentSampler._FormulaErrorsAsConfigError(self.config['formula']):\n            parsed = parse(self.config['formula'])\n            self.config['depends'] = list(parsed.variables_used)\n\n    class _FormulaErrorsAsConfigError(object):\n        def __init__(self, formula):\n            self.formula = formula\n\n        def __enter__(self):\n            return self\n\n        def __exit__(self, exc_type, exc_value, traceback):\n            if exc_type is not None and issubclass(exc_type, CalcError):\n                raise ConfigError(\"Formula error in dependent sampling formula: \" + self.formula)\n            return False\n\n    def gen_sample(self):"),
+    Benign('input-positions-symmetric-difference', IGF, "        if used_positions_set != set(range(1, len(used_positions_set) + 1)):",
+           "        expected_positions = set(range(1, len(used_positions_set) + 1))\n        if used_positions_set ^ expected_positions:"),
+    Benign('credit-schedules-shared-base', ATT, "class GeometricCredit(ObjectWithSchema):",
+           "class _CreditSchedule(ObjectWithSchema):\n    def describe(self):\n        return repr(self.config)\n\nclass GeometricCredit(_CreditSchedule):"),
+    Benign('override-warning-comprehension', MH, "    duplicates = set(defaults).intersection(set(config[key]))\n    if duplicates and not config.get('suppress_warnings', False):",
+           "    default_names = set(defaults)\n    duplicates = {entry for entry in config[key] if entry in default_names}\n    if duplicates and not config.get('suppress_warnings', False):"),
+    Benign('list-of-type-schema-built-once', VF,
+           "    def func(config_input):\n        # Wrap an individual given_type in a list\n        if not isinstance(config_input, list):\n            config_input = [config_input]\n        # Apply the schema\n        if validator:\n            schema = Schema(All([given_type], Length(min=1), [validator]))\n        else:\n            schema = Schema(All([given_type], Length(min=1)))\n        return schema(config_input)",
+           "    if validator:\n        schema = Schema(All([given_type], Length(min=1), [validator]))\n    else:\n        schema = Schema(All([given_type], Length(min=1)))\n\n    def func(config_input):\n        # Wrap an individual given_type in a list\n        if not isinstance(config_input, list):\n            config_input = [config_input]\n        return schema(config_input)"),
+    Benign('interval-ordering-in-shared-base', SAM, "class RealInterval(ScalarSamplingSet):", "class _OrderedRange(ScalarSamplingSet):\n    def describe(self):\n        return repr(self.config)\n\nclass RealInterval(_OrderedRange):"),
     Benign('log-in-init', BASE, "        # Validate the configuration\n        self.config = self.validate_config(use_config)",
            "        _n = len(use_config) if isinstance(use_config, dict) else 0\n        self.config = self.validate_config(use_config)"),
 ]
